@@ -1088,6 +1088,21 @@ func runChildIn(p params, b binary) {
 			}
 			replay["goroutine_dump_excerpt"] = d
 		}
+		if n := strings.Count(se, "WARNING: DATA RACE"); n > 0 { // a child drowned in race reports is slow, not necessarily blocked: say so, and report the race as well
+			replay["race_reports_before_the_deadline"] = n
+			first := se[strings.Index(se, "WARNING: DATA RACE"):]
+			if i := strings.Index(first, "\n=================="); i > 0 {
+				first = first[:i]
+			}
+			fn := "unknown"
+			if m := bloomFn.FindStringSubmatch(first); m != nil {
+				fn = m[1] + "." + m[2]
+			}
+			if len(first) > 2500 {
+				first = first[:2500]
+			}
+			rep.Violate("C20:race:"+fn, "the race detector reported a data race in "+fn, map[string]interface{}{"stress": p, "binary": b.Name, "race_report": first})
+		}
 		rep.Violate("C20:hang", fmt.Sprintf("stress scenario %q (%s binary, %d goroutines) made no progress for %.0f s / did not finish within %.0f s: deadlock or livelock in the filter %v", p.Scenario, b.Name, p.Goroutines, stallLimit.Seconds(), childDeadline.Seconds(), where), replay)
 	case strings.Contains(se, "WARNING: DATA RACE"):
 		first := se[strings.Index(se, "WARNING: DATA RACE"):]
